@@ -2432,10 +2432,11 @@ template< size_t L>
    va_list  ap;
 
    ::va_start( ap, format);
-   mLength = std::vsnprintf( mString, L + 1, format, ap);
+   // the result can be bigger than the length type can hold, or negative
+   const int  result = std::vsnprintf( mString, L + 1, format, ap);
    ::va_end( ap);
 
-   mLength = std::min( L, static_cast< size_t>( mLength));
+   mLength = (result < 0) ? 0 : std::min( L, static_cast< size_t>( result));
    mString[ mLength] = '\0';
 
    return *this;
